@@ -184,6 +184,50 @@ DNSRef(m, cfg, net) ==
   THEN "Y" ELSE "N"
 
 (***************************************************************************)
+(* RDP (MS-RDPBCGR 2.2.1.1): TPKT header (version 3, reserved 0, length),  *)
+(* X.224 Connection Request (LI = length - 5, code 0xE0, refs 0, class 0), *)
+(* then optionally a cookie ("Cookie: mstshash=<hash>" CR LF), or a routing*)
+(* token ("Cookie: msts=<ip>.<port>.0000" CR LF behind an 11-byte token    *)
+(* header), or custom text CR LF; then optionally RDP_NEG_REQ (type 1,     *)
+(* length 8; HYBRID requires SSL).  Documented: an empty payload or any    *)
+(* byte after the request means "not RDP".  Filters: cookie_hash,          *)
+(* cookie_ips, cookie_ports.                                               *)
+(***************************************************************************)
+RDPMsgs == [ver : {3, 2}, len : {"exact", "plus1", "minus1"},
+            cookie : {"none", "hash_user", "hash_other", "token_in_3389", "token_in_1234", "token_out_3389", "custom", "custom_cr"},
+            neg : {"none", "ssl", "hybrid_ssl", "hybrid_only", "badtype"}, extra : {0, 1}]
+RDPCfgs == [cookie_hash : {"", "user"}, cookie_ips : {<<>>, <<"10.0.0.0/8">>}, cookie_ports : {<<>>, <<3389>>}]
+RDPRef(m, cfg) ==
+  LET isToken == m.cookie \in {"token_in_3389", "token_in_1234", "token_out_3389"}
+      cookieOK == /\ (cfg.cookie_hash = "user" => m.cookie = "hash_user")
+                  /\ (cfg.cookie_ips # <<>> => m.cookie \in {"token_in_3389", "token_in_1234"})
+                  /\ (cfg.cookie_ports # <<>> => m.cookie \in {"token_in_3389", "token_out_3389"})
+      negOK == m.neg \in {"none", "ssl", "hybrid_ssl"} IN
+  IF /\ m.ver = 3 /\ m.len = "exact" /\ m.extra = 0
+     /\ (m.cookie # "none" \/ m.neg # "none")
+     /\ m.cookie # "custom_cr"                 \* text ending in a bare CR is neither a cookie line nor a negotiation request
+     /\ cookieOK /\ negOK
+  THEN "Y" ELSE "N"
+
+(***************************************************************************)
+(* HTTP/1.x request (RFC 9112): request line "METHOD SP target SP          *)
+(* HTTP/x.y", header fields, empty line.  Filters (Caddy's HTTP matchers): *)
+(* host, path (exact or prefix glob), method, header presence.             *)
+(***************************************************************************)
+HTTPMsgs == [method : {"GET", "POST"}, path : {"/", "/api/x", "/other"}, version : {"HTTP/1.1", "HTTP/1.0", "HTTQ/1.1"},
+             eol : {"crlf", "lf"}, host : {"example.com", "other.org", ""}, xtest : BOOLEAN, complete : BOOLEAN]
+HTTPCfgs == [filter : {"none", "host", "path", "method", "header"}]
+HTTPRef(m, cfg) ==
+  IF m.version = "HTTQ/1.1" THEN "N"
+  ELSE IF ~m.complete THEN "M"
+  ELSE IF CASE cfg.filter = "none" -> TRUE
+            [] cfg.filter = "host" -> m.host = "example.com"
+            [] cfg.filter = "path" -> m.path = "/api/x"          \* path matcher /api/*
+            [] cfg.filter = "method" -> m.method = "POST"
+            [] cfg.filter = "header" -> m.xtest
+       THEN "Y" ELSE "N"
+
+(***************************************************************************)
 (* The vectors and their reference verdicts                                *)
 (***************************************************************************)
 Vec(p, n, c, m, t) == [proto |-> p, net |-> n, cfg |-> c, msg |-> m, trail |-> t]
@@ -201,6 +245,8 @@ Vectors(p) ==
     [] p = "wireguard" -> { Vec(p, "udp", c, m, 0) : m \in WGMsgs, c \in WGCfgs }
     [] p = "dns"      -> { Vec(p, n, c, m, t) : m \in { x \in DNSMsgs : Tier # "quick" \/ (x.rcode + x.z + x.qr <= 1 /\ x.name # "sub.example.com.") },
                                                  c \in DNSCfgs, n \in {"tcp", "udp"}, t \in {0} }
+    [] p = "rdp"      -> { Vec(p, "tcp", c, m, 0) : m \in { x \in RDPMsgs : Tier # "quick" \/ x.len # "minus1" }, c \in RDPCfgs }
+    [] p = "http"     -> { Vec(p, "tcp", c, m, 0) : m \in HTTPMsgs, c \in HTTPCfgs }
     [] OTHER -> {}
 
 Ref(v) ==
@@ -215,6 +261,8 @@ Ref(v) ==
     [] v.proto = "ip" -> IPRef(v.msg, v.cfg)
     [] v.proto = "wireguard" -> WGRef(v.msg, v.cfg)
     [] v.proto = "dns" -> DNSRef(v.msg, v.cfg, v.net)
+    [] v.proto = "rdp" -> RDPRef(v.msg, v.cfg)
+    [] v.proto = "http" -> HTTPRef(v.msg, v.cfg)
     [] OTHER -> "?"
 
 \* stream protocols: the verdict-over-prefixes rules of C06 apply
